@@ -7,7 +7,7 @@ Goroutines of the same kind are interchangeable, so the state counts them per pr
 most one committer is inside the writeLock region).  Sections that only take short mutexes
 (`oracle.Mutex`, `DB.mu`, `memtable.mu`, `levelManager.mu`, `WAL.mu`) and contain no wait for
 another goroutine's *progress* are atomic steps: they always terminate, so they cannot be part of a
-wait cycle (the extracted lock table shows the acquisition order is acyclic: `Props.C15_lock_order`). -/
+wait cycle (the regenerated blocking table shows that none of them is held across a wait and that the acquisition order is fixed: `Props.C15_waits_hold_only_writeLock`, `Props.C15_lock_order`). -/
 namespace Sched
 
 /-- where the committer that holds `writeLock` is -/
